@@ -292,6 +292,11 @@ def r4(p, rep):
             as_with = isinstance(par, ast.withitem)
             delegation = isinstance(par, ast.Attribute) and par.attr in ("__enter__", "__exit__") and f.name == par.attr
             returned = isinstance(par, ast.Return) and f in factories
+            if isinstance(par, ast.Assign) and len(par.targets) == 1 and isinstance(par.targets[0], ast.Name):
+                # `scope = CM(...)` followed by `with scope:` (the name is used for nothing else)
+                nm = par.targets[0].id
+                loads = [x for x in walk_no_nested(f.node) if isinstance(x, ast.Name) and x.id == nm and isinstance(x.ctx, ast.Load)]
+                as_with = bool(loads) and all(isinstance(getattr(x, "_parent", None), ast.withitem) and getattr(x, "_parent").context_expr is x for x in loads)
             rep.add("C06.R4", f"{f.qualname}:use({target})", f"{f.module.rel}:{n.lineno}", as_with or delegation or returned, "with-item" if as_with else ("delegation to the same method" if delegation else ("factory return" if returned else f"{target}(...) is neither a with-item nor the enter/exit delegation idiom")))
 
 
